@@ -230,7 +230,7 @@ fn subset_scenarios(tier: Tier, oracles: Oracles, nmax: usize) -> Vec<Scenario> 
         let nabs = subset_absent(b.n, b.keylen).len();
         let ins_bits = if tier == Tier::Quick && b.n >= 12 { 0 } else if b.n >= 14 { 2 } else { nabs };
         for reverse in [false, true] {
-            if reverse && tier == Tier::Quick && b.n >= 9 {
+            if reverse && tier == Tier::Quick && b.n >= 9 && b.n != 14 {
                 continue;
             }
             let n = 1usize << (b.n + ins_bits);
@@ -379,6 +379,12 @@ fn c06_scenarios(tier: Tier) -> Vec<Scenario> {
     }
     alpha.push(Action::RoTx { ops: ro_ops });
     alpha.push(Action::RoCommit);
+    // commits that report an I/O error before anything reached the header: a call that returns an
+    // error changes nothing
+    for b in bodies.iter().take(4) {
+        alpha.push(Action::TxFail { ops: b.clone(), call: 0 });
+        alpha.push(Action::TxFail { ops: b.clone(), call: 2 });
+    }
     let followups: Vec<Action> = bodies.iter().take(6).map(|b| Action::Tx { ops: b.clone(), commit: true }).collect();
     let mut sc = Scenario::new("rollback-menu", Cfg::default(), setup, Box::new(alpha), if q { 3 } else { 4 }, or);
     sc.drop_keeps_digest = true;
@@ -398,7 +404,7 @@ fn c06_scenarios(tier: Tier) -> Vec<Scenario> {
 
 pub fn scenarios(prop: &str, tier: Tier) -> Vec<Scenario> {
     match prop {
-        "C01" => c01_like(tier, Oracles { rets: true, dump_after: true, reopen_copy: true, ..Oracles::NONE }, true),
+        "C01" => c01_like(tier, Oracles { rets: true, dump_after: true, reopen_copy: true, dump_in_tx: true, ..Oracles::NONE }, true),
         "C05" => c01_like(tier, Oracles { fileck: true, dbcheck: true, ..Oracles::NONE }, false),
         "C07" => c01_like(tier, Oracles { rets: true, probe_each_op: Some(ProbeCfg::LIGHT), ..Oracles::NONE }, false),
         "C06" => c06_scenarios(tier),
